@@ -87,8 +87,36 @@ def evaluate(case):
 
 
 @st.composite
+def _coerced_index_and_failures(draw):
+    """Series / dataframe pair whose Index(int64, coerce=True) really has to convert the (digit string) labels, with
+    one or two row-level violations elsewhere: the working copy gets a new index before / after the failures."""
+    import copy
+
+    case = copy.deepcopy(gen.repair(draw(gen.case_strategy(allow_dup_labels=False, allow_frame_checks=False))))
+    spec, table = case["spec"], case["table"]
+    n = sp.table_nrows(table)
+    labels = draw(st.lists(st.integers(-3, 30), min_size=n, max_size=n, unique=True))
+    spec["index"] = {"name": None, "dtype": "int64", "nullable": False, "unique": False, "coerce": True, "checks": []}
+    table["index"] = {"name": None, "phys": "object", "cells": [str(v) for v in labels]}
+    for _ in range(draw(st.integers(0, 2))):
+        case = draw(gen.tighten(case, ops=["nullable", "unique", "check", "check", "joint"]))
+    case.update(parser_ops=["index-coerce", "tightened"], touched=[], lazy=draw(st.integers(0, 3)) > 0,
+                inplace=draw(st.integers(0, 5)) == 0)
+    return case
+
+
+@st.composite
 def strategy(draw):
-    case = draw(gen.parser_case())
+    case = draw(gen.parser_case()) if draw(st.integers(0, 7)) else draw(_coerced_index_and_failures())
+    if draw(st.integers(0, 3)) == 0 and not case["spec"].get("drop_invalid_rows"):
+        # ... and violations the options do not repair (the failing paths must leave the caller's data alone as well):
+        # one or two constraints tightened on top, validation mostly lazy so that everything after the first failure runs
+        keep = {k: case[k] for k in ("parser_ops", "touched", "lazy", "inplace")}
+        for _ in range(draw(st.integers(1, 2))):
+            case = dict(draw(gen.tighten(case, ops=gen.ROW_OPS)), **keep)
+        case["parser_ops"] = list(case["parser_ops"]) + ["tightened"]
+        if draw(st.integers(0, 3)) > 0:
+            case["lazy"] = True
     spec, table = case["spec"], case["table"]
     entry = "schema"
     if spec.get("kind", "dataframe") == "dataframe":
